@@ -16,6 +16,7 @@ func localFieldLoads(p *Program, v ssa.Value) map[string]bool {
 }
 
 func checkC10(p *Program, r *Reporter) {
+	errDiscByName(p, r, pkgApp, "encryptFrags", "matchInit")
 	r.Explanation = "Static analysis of structural necessary conditions of C10: (a) key derivation: the licence handler and the encryptor obtain the key from the key id through the same function, the constants of the derivation are used by no other function, and the key stored with a representation is derived from the very key id stored with it; " +
 		"(b) the key id announced in the MPD and the key id written into the init segment come from the same derivation, which either ignores its argument or is given the same source at both sites; " +
 		"(c) CPIX: MPD, init segment and fragment encryption select the content key through the same lookup, keyed by the content type of the adaptation set / representation being processed (never by the reference representation's); " +
